@@ -131,6 +131,12 @@ impl StreamCase {
             "aux": self.aux,
             "notes": self.notes,
             "provenance": {"seed": self.seed, "run": self.run},
+            "gen": self.gen.as_ref().map(|g| json!({
+                "policy": g.policy.to_json(),
+                // as a string: a u64 does not survive a JSON number
+                "sched_seed": g.sched_seed.to_string(),
+                "co_policies": g.co_policies.iter().map(|p| p.to_json()).collect::<Vec<_>>(),
+            })),
         })
     }
     pub fn from_json(v: &J) -> StreamCase {
@@ -151,7 +157,15 @@ impl StreamCase {
                 .map(|a| a.iter().map(|t| (bytes_from_json(&t["medium"]), script_from_json(&t["script"]))).collect())
                 .unwrap_or_default(),
             aux: v["aux"].as_array().map(|a| a.iter().map(|x| x.as_u64().unwrap_or(0)).collect()).unwrap_or_default(),
-            gen: None,
+            gen: if v["gen"].is_object() {
+                Some(GenInfo {
+                    policy: Policy::from_json(&v["gen"]["policy"]),
+                    sched_seed: v["gen"]["sched_seed"].as_str().and_then(|s| s.parse().ok()).unwrap_or(0),
+                    co_policies: v["gen"]["co_policies"].as_array().map(|a| a.iter().map(Policy::from_json).collect()).unwrap_or_default(),
+                })
+            } else {
+                None
+            },
             notes: v["notes"].as_array().map(|a| a.iter().filter_map(|s| s.as_str().map(String::from)).collect()).unwrap_or_default(),
             seed: v["provenance"]["seed"].as_u64().unwrap_or(0),
             run: v["provenance"]["run"].as_u64().unwrap_or(0),
